@@ -578,3 +578,20 @@ pub(crate) fn verif_assign_thunk_blocks(
 ) -> usize {
     assign_thunk_blocks(objects, max_branch_range, assign)
 }
+
+/// Verification-only access to `ThunkLayoutBuilder::compute_non_primary_text_size` (see
+/// `verif_api.rs`).
+#[cfg(wild_verif)]
+pub(crate) fn verif_non_primary_text_size<P: Platform>(
+    branch_range: u64,
+    primary_function_part_id: PartId,
+    output_sections: &OutputSections<P>,
+    section_part_sizes: &OutputSectionPartMap<u64>,
+) -> u64 {
+    ThunkLayoutBuilder {
+        branch_range,
+        primary_function_part_id,
+        non_primary_referenced_symbols: SegQueue::new(),
+    }
+    .compute_non_primary_text_size(output_sections, section_part_sizes)
+}
